@@ -41,6 +41,10 @@ func c09Merge(c *vk.Ctx) {
 			jobs = append(jobs, Job{Harness: "MergeOKCount", Bound: b3, BudgetS: vk.Pick(c, 8.0, 300.0), FallbackDelay: vk.Pick(c, 3, 6), Params: map[string]int{"n": 3, "v0": vs[0], "v1": vs[1], "v2": vs[2], "k0": 1, "k1": 2, "k2": 0, "script": s}})
 		}
 	}
+	// n=3, COUNT: every order of three different counts (the maximum in every position)
+	for _, ks := range [][3]int{{1, 2, 3}, {1, 3, 2}, {2, 1, 3}, {2, 3, 1}, {3, 1, 2}, {3, 2, 1}, {0, 3, 1}} {
+		jobs = append(jobs, Job{Harness: "MergeOKCount", Bound: b3, BudgetS: vk.Pick(c, 8.0, 300.0), FallbackDelay: vk.Pick(c, 3, 6), Params: map[string]int{"n": 3, "k0": ks[0], "k1": ks[1], "k2": ks[2], "script": 4}})
+	}
 	// two sessions on ONE merge handler with the same event id / COUNT id in flight: per-request state is per session
 	for v0 := 0; v0 < 4; v0++ {
 		for v1 := 0; v1 < 4; v1++ {
